@@ -100,6 +100,33 @@ def judge_group(t, part, val):
     return None
 
 
+def judge_repeat(t, part, val):
+    """the same part TWICE in one search pattern, literal text t between and around the occurrences (`files/0M/pkg-0M.tar.gz`): the text is
+    still matched literally (parts whose recogniser is an alternation must not leak a top-level `|`)"""
+    from bumpver import v2patterns
+    import re
+    if not t or any(c.isdigit() for c in t) or (part in ("TAG", "PYTAG") and (t[:1].isalpha() or t[-1:].isalpha())):
+        return None
+    pat = to_pattern(t)
+    pat_full = pat + part + pat + part + pat
+    text = t + val + t + val + t
+    try:
+        rx = v2patterns.compile_pattern(pat_full).regexp
+    except re.error as ex:
+        return "pattern %r does not compile: %s" % (pat_full, ex)
+    for l in [text, "xx " + text + " yy"]:
+        m = rx.search(l)
+        if m is None or m.group(0) != text:
+            return "pattern %r does not find its own text in %r (found %r)" % (pat_full, l, m.group(0) if m else None)
+    for l in [val, "zz " + val + " zz", t + val, val + t + val]:
+        if text in l:
+            continue
+        m = rx.search(l)
+        if m is not None and len(m.group(0)) > 0:
+            return "pattern %r matches %r in line %r which does not contain the text %r" % (pat_full, m.group(0), l, text)
+    return None
+
+
 def run(chk, driver, tier):
     rng = chk.rng
     known = {f["id"]: f for f in load_known_findings("C07") if f.get("status") == "open"}
@@ -141,6 +168,9 @@ def run(chk, driver, tier):
             # the same literal text inside an optional group around the part (escaped brackets inside a group included)
             chk.count("in_optional_group")
             chk.oracle_case({"literal": t, "group": wrap}, judge_group(t, wrap[0], wrap[1]), reg if reg in known else None)
+            rp = rng.choice([["0M", "07"], ["MM", "7"], ["0D", "09"], ["TAG", "beta"], ["PYTAG", "rc"], ["0W", "05"], ["YYYY", "2024"], ["MAJOR", "12"]])
+            chk.count("repeated_part")
+            chk.oracle_case({"literal": t, "repeat": rp}, judge_repeat(t, rp[0], rp[1]), reg if reg in known else None)
         if rng.random() < (0.02 if len(lits) > 50000 else 0.2):
             ops.append({"op": "compile_str", "pattern": to_pattern(t)})
             ops.append({"op": "compile_search", "pattern": to_pattern(t), "line": "xx " + t + " yy"})
@@ -181,6 +211,8 @@ def search(chk, driver, tier):
 
 def replay(payload):
     c = payload["case"]
+    if "repeat" in c:
+        return judge_repeat(c["literal"], c["repeat"][0], c["repeat"][1])
     if "group" in c:
         return judge_group(c["literal"], c["group"][0], c["group"][1])
     if "literal" in c:
